@@ -49,3 +49,17 @@ func init() {
 		NotDecided:  "value-level correctness of every operator on every input; agreement with TLAExprInterpreter.scala beyond operator names and arity.",
 		Assumptions: commonAssumptions})
 }
+
+func init() {
+	prop(&PropInfo{ID: "C01", Level: "other",
+		Explanation: "Decides the structural transaction protocol that makes critical sections atomic, for every ArchetypeResource implementation of the workspace (enumerated by types.Implements) and for the driver in distsys: who may call lifecycle methods (RES-OWNER), that every field written during a section is written by Abort and snapshot fields are maintained (RES-RESTORE), that wrappers and map resources forward and track dirty children (RES-FORWARD), that observable sinks are reachable only from Commit (RES-PUBLISH), the ordering obligations of Run/commit/abort and Read/Write on their control-flow graphs (CS-ORDER, CS-DIRTY), that the abort/done sentinels are never wrapped (ERR-SENTINEL) and that critical-section code never re-binds a live resource cell (RES-NOREBIND).",
+		NotDecided:  "that each Abort restores the right value (only that it writes the field); socket-level delivery; timeouts; interaction of two contexts; the equality 'state after a failed attempt = state before' as a run-time fact.",
+		Assumptions: commonAssumptions})
+}
+
+func init() {
+	prop(&PropInfo{ID: "C04", Level: "other",
+		Explanation: "Decides structural necessary conditions of PlusCal call/return semantics on the control-flow graphs of ArchetypeInterface.Call/Return/TailCall: live state-variable cells are never re-bound by section code (RES-NOREBIND: otherwise recursion saves zero values), the .stack cell is used as a sequence of frames (KIND-STACK), and the save/bind/push/preamble/goto and pop/restore orders hold on every path (CALL-ORDER).",
+		NotDecided:  "value-correctness for all call graphs and argument values; by-reference aliasing through mapped resources; the generated call sites (their targets are checked by C02/JT-CLOSED).",
+		Assumptions: commonAssumptions})
+}
